@@ -1,5 +1,6 @@
 """C14 — inheritance only adds strictness; invalid class definitions fail when defined."""
 import json
+import re
 from ..suites import define as S
 
 ID = "C14"
@@ -38,7 +39,9 @@ RULE = ("histories of class statements: DAG hierarchies of 1..4 classes (single 
         "Constants, `_required` / `_optional` / `_additional_properties` / `_ignore_none` / `_immutable` at every level, "
         "redeclaration of inherited names, other class attributes, @keys_of with 1..3 enum classes over own and inherited "
         "names (p=0.15, a third of them with one member of one enum - any argument position - not a field); every third "
-        "case appends every single-fault variant (keys_of: 1/2/3 enums x every position of the enum holding the missing "
+        "case appends every single-fault variant (unknown attribute: fresh name, and a name that already exists on a plain "
+        "mixin / on an ancestor Structure defined while the guard was off / as an internal name of Structure, at depth "
+        "1..3, values bool / list / dict, guard switched inside the history; keys_of: 1/2/3 enums x every position of the enum holding the missing "
         "member, the other members being own / inherited fields) "
         "(with its fault-free control) for both guard settings drawn at random; built by type(name, bases, dict) or by "
         "exec of class-statement text; non-trivial = >= 2 class statements; distinct by sha256 of the case line")
@@ -85,7 +88,7 @@ def judge(case, impl, model):
                     continue   # the fault-free control does not define cleanly: no verdict
             if st.get("expect_raise") and "ok" in r:
                 nm = st.get("src", {}).get("name") or st.get("name")
-                key_kind = "keys-of-missing" if kind.startswith("keys-of-missing") else kind
+                key_kind = "keys-of-missing" if kind.startswith("keys-of-missing") else re.sub(r":depth\d+$", "", kind)
                 fails.append((f"fault-accepted:{key_kind}",
                               f"class statement {nm} with fault '{kind}' did not raise: "
                               + (json.dumps(st["src"].get("keysOf")) + " " if st.get("src", {}).get("keysOf") else "")
